@@ -128,19 +128,20 @@ def binary_rev(t, kf, kb, prod, major, minor, backend=None):
         Default is 'numpy', can also be e.g. ``sympy``.
 
     """
-    # see _integrated.ipynb for derivation
+    # see _integrated.ipynb for derivation; written in terms of the two roots r1 < r2 of the
+    # rate polynomial so that no nearly equal quantities are subtracted (the former CSE
+    # form lost all digits when one reactant is in large excess).
     be = get_backend(backend)
     X, Y, Z = prod, major, minor
-    x0 = Y * kf
-    x1 = Z * kf
-    x2 = 2 * X * kf
-    x3 = -kb - x0 - x1
-    x4 = -x2 + x3
-    x5 = be.sqrt(-4 * kf * (X ** 2 * kf + X * x0 + X * x1 + Z * x0) + x4 ** 2)
-    x6 = kb + x0 + x1 + x5
-    x7 = (x3 + x5) * be.exp(-t * x5)
-    x8 = x3 - x5
-    return (x4 * x8 + x5 * x8 + x7 * (x2 + x6)) / (2 * kf * (x6 + x7))
+    B = kf * (Y + Z) + kb
+    C = kf * Y * Z - kb * X
+    D = be.sqrt(
+        (kf * (Y - Z)) ** 2 + 2 * kf * kb * (Y + Z) + kb ** 2 + 4 * kf * kb * X
+    )
+    r1 = 2 * C / (B + D)
+    r2 = (B + D) / (2 * kf)
+    E = be.exp(-D * t)
+    return X + r1 * (1 - E) / (1 - r1 / r2 * E)
 
 
 binary_rev.name = "Second order reversible"
